@@ -254,3 +254,49 @@ kproof! {
         kani::cover!(k0 == 2 && k1 == 1 && a0 > 9, "correction then flag");
     }
 }
+
+/// channel that also records whether the coder was terminated
+pub struct FinChan { pub ch: Chan, pub finished: bool }
+impl CabacWriter<TagCtx> for FinChan {
+    fn put_bypass(&mut self, v: bool) -> std::io::Result<()> { self.ch.put_bypass(v) }
+    fn put(&mut self, v: bool, c: &mut TagCtx) -> std::io::Result<()> { self.ch.put(v, c) }
+    fn finish(&mut self) -> std::io::Result<()> { self.finished = true; Ok(()) }
+}
+impl CabacReader<TagCtx> for FinChan {
+    fn get_bypass(&mut self) -> std::io::Result<bool> { self.ch.get_bypass() }
+    fn get(&mut self, c: &mut TagCtx) -> std::io::Result<bool> { self.ch.get(c) }
+}
+kproof! {
+    /// K10d: the PUBLIC encoder/decoder pair (PredictionEncoderCabac / PredictionDecoderCabac and their trait
+    /// impls): two operations then finish() — the arithmetic coder is always terminated by finish(), every
+    /// pending default is flushed, and the decoder reads the operations back
+    fn k10d_public_codec_finish() {
+        let k0: u8 = kani::any(); let k1: u8 = kani::any();
+        kani::assume(k0 <= 2 && k1 <= 2);
+        let o0 = any_op(k0, 16, 4);
+        let o1 = any_op(k1, 16, 4);
+        let mut enc = PredictionEncoderCabac::<FinChan, TagCtx>::new(FinChan { ch: Chan::new(), finished: false });
+        for o in [&o0, &o1] {
+            match o.kind {
+                0 => enc.encode_value(o.a as u16, o.b),
+                1 => enc.encode_misprediction(o.mc, o.a != 0),
+                _ => enc.encode_correction(CodecCorrection::LenCorrection, o.a),
+            }
+        }
+        enc.finish();
+        assert!(enc.writer.finished, "finish() did not terminate the arithmetic coder");
+        assert!(enc.context.default_count == 0, "finish() left a default run unflushed");
+        let fc = FinChan { ch: Chan { bit: enc.writer.ch.bit, tag: enc.writer.ch.tag, n: enc.writer.ch.n, r: 0 }, finished: false };
+        let mut dec = PredictionDecoderCabac::<FinChan, TagCtx>::new(fc);
+        for o in [&o0, &o1] {
+            match o.kind {
+                0 => assert!(dec.decode_value(o.b) as u32 == o.a),
+                1 => assert!(dec.decode_misprediction(o.mc) == (o.a != 0)),
+                _ => assert!(dec.decode_correction(CodecCorrection::LenCorrection) == o.a),
+            }
+        }
+        assert!(dec.reader.ch.r == dec.reader.ch.n, "channel not fully consumed");
+        kani::cover!(o1.kind == 0, "a fixed-width value right before finish");
+        kani::cover!(o1.kind == 1 && o1.a == 0, "a default right before finish");
+    }
+}
